@@ -108,7 +108,7 @@ class MatchSurface(core.Surface):
         return core.impl_call(lambda: bool(regex_from_cf_string(x["p"]).match(x["s"])))
 
     def model(self, rn, x):
-        return ("OK", rn.call(2, [x["p"], x["s"]]))
+        return ("OK", rn.call(802, [x["p"], x["s"]]))
 
     def tags(self, x):
         return tags_of(x["p"]) | {"ci"}
@@ -127,7 +127,7 @@ class LikeSurface(core.Surface):
         return core.impl_call(lambda: StatementCondition.model_validate({x["op"]: {"k": x["p"]}})({"k": x["s"]}))
 
     def model(self, rn, x):
-        b = rn.call(1, [x["p"], x["s"]])
+        b = rn.call(801, [x["p"], x["s"]])
         return ("OK", (not b) if "Not" in x["op"] else b)
 
     def tags(self, x):
@@ -146,7 +146,7 @@ class ExpandSurface(core.Surface):
         return core.impl_call(lambda: _expand_action(x["p"]))
 
     def model(self, rn, x):
-        return ("OK", rn.call(3, [x["p"]], sample=False))
+        return ("OK", rn.call(803, [x["p"]], sample=False))
 
     def tags(self, x):
         return tags_of(x["p"]) | {"expand"}
